@@ -48,6 +48,8 @@ type workload struct {
 	localPaths bool // ResolveLocalPath
 	// injected restore-side errors are not-found conditions that wrap resolver.ErrPackageNotFound
 	notFoundErrs bool
+	stayDown     bool // the inner name resolver fails from call j on (not just once)
+	junkNames    bool // failing name-resolver calls return a non-empty name with the error
 }
 
 type countWriter struct {
@@ -195,6 +197,8 @@ func draw(run *core.Run) *workload {
 	}
 	w.localPaths = t.Bool(1, 8)
 	w.notFoundErrs = t.Bool(1, 3)
+	w.stayDown = t.Bool(1, 3)
+	w.junkNames = t.Bool(1, 2)
 	run.Describe("source (%d bytes, %d imports, %d decls):\n%s", len(w.spec.Src), len(w.spec.Imports), w.spec.Decls, w.spec.Src)
 	run.Describe("decorate resolver: goast over %s; restore resolver: %s; entry=%d restoreAPI=%d extras=%v sameGoast=%v resolveLocal=%v",
 		faults.KindName(w.decKind), faults.KindName(w.resKind), w.entry, w.restoreAPI, w.extras, w.sameGoast, w.localPaths)
@@ -357,7 +361,10 @@ func Run(run *core.Run) {
 	}
 	for j := 1; j <= M && !run.Failed(); j++ {
 		cased(fmt.Sprintf("%s:inner:%d", wkey, j), func() {
-			plan := &faults.Plan{KthCall: j, Transient: 1}
+			plan := &faults.Plan{KthCall: j, Transient: 1, JunkName: w.junkNames}
+			if w.stayDown {
+				plan = &faults.Plan{FromCall: j, JunkName: w.junkNames} // stays down until the retry
+			}
 			if w.notFoundErrs {
 				plan.Err = faults.NewNotFound(fmt.Sprint(j))
 			}
@@ -371,7 +378,7 @@ func Run(run *core.Run) {
 		}
 		p := p
 		cased(fmt.Sprintf("%s:path:%s", wkey, p), func() {
-			plan := &faults.Plan{Paths: map[string]bool{p: true}}
+			plan := &faults.Plan{Paths: map[string]bool{p: true}, JunkName: w.junkNames}
 			if w.notFoundErrs {
 				plan.Err = faults.NewNotFound(p) // a not-found condition that is not the bare sentinel
 			}
@@ -380,7 +387,7 @@ func Run(run *core.Run) {
 	}
 	for k := 1; k <= len(P) && !run.Failed(); k++ {
 		cased(fmt.Sprintf("%s:call:%d", wkey, k), func() {
-			plan := &faults.Plan{KthCall: k}
+			plan := &faults.Plan{KthCall: k, JunkName: w.junkNames}
 			if w.notFoundErrs {
 				plan.Err = faults.NewNotFound(fmt.Sprint(k))
 			}
